@@ -73,6 +73,15 @@ impl Cov {
 pub struct RunResult {
     pub trace_hash: u64,
     pub violation: Option<Violation>,
+    /// an equivalent scenario better suited to minimisation (engine SCHED: the same program with
+    /// the schedule rewritten as default policy + explicit preemptions)
+    pub rewrite: Option<Value>,
+}
+
+impl RunResult {
+    pub fn new(trace_hash: u64, violation: Option<Violation>) -> RunResult {
+        RunResult { trace_hash, violation, rewrite: None }
+    }
 }
 
 pub struct Budget {
@@ -104,6 +113,16 @@ pub trait Prop: Sync {
     }
     /// extra per-worker warm-up (e.g. metric-log statics)
     fn extra_warm_up(&self) {}
+    /// engine SCHED: statics are re-initialised per execution by the scheduler runtime, so the
+    /// worker performs no warm-up (and must not touch the code under test outside an execution)
+    fn needs_warm_up(&self) -> bool {
+        true
+    }
+    /// classify a panic of the code under test (engine SCHED recognises the runtime's deadlock verdict)
+    fn classify_panic(&self, loc: &str, msg: &str) -> String {
+        let _ = msg;
+        format!("{}/panic@{}", self.id(), loc)
+    }
 }
 
 pub fn run_seed(verif_seed: u64, prop: &str, idx: u64) -> u64 {
@@ -156,16 +175,16 @@ pub fn run_on_pristine_thread(
                     let sig = if msg.starts_with("HARNESS") {
                         format!("HARNESS/{}", msg)
                     } else {
-                        format!("{}/panic@{}", prop.id(), loc)
+                        prop.classify_panic(&loc, &msg)
                     };
-                    RunResult {
-                        trace_hash: 0,
-                        violation: Some(Violation {
+                    RunResult::new(
+                        0,
+                        Some(Violation {
                             signature: sig,
                             at_op: -1,
                             detail: format!("panic at {}: {}", loc, msg),
                         }),
-                    }
+                    )
                 }
             };
             let _ = tx.send((rr, cov));
@@ -189,7 +208,9 @@ fn worker_init(prop: &'static dyn Prop) {
         }
     }
     vc::enable(BASE_NS);
-    world::warm_up(BASE_NS);
+    if prop.needs_warm_up() {
+        world::warm_up(BASE_NS);
+    }
     prop.extra_warm_up();
 }
 
@@ -286,15 +307,17 @@ fn emit_stats(
 }
 
 /// `seqsim one <prop> <scenario-file>`: execute one scenario alone in this (new) process.
-pub fn one_main(prop: &'static dyn Prop, scenario: &Value) -> (Option<Violation>, u64, Cov) {
+pub fn one_main(prop: &'static dyn Prop, scenario: &Value) -> (Option<Violation>, u64, Cov, Option<Value>) {
     worker_init(prop);
+    seams::set_verbose_panics(true);
     match run_on_pristine_thread(prop, scenario, Duration::from_secs(60)) {
         None => (
             Some(Violation::new(format!("{}/hang", prop.id()), 0, "run exceeded the watchdog")),
             0,
             Cov::default(),
+            None,
         ),
-        Some((rr, cov)) => (rr.violation, rr.trace_hash, cov),
+        Some((rr, cov)) => (rr.violation, rr.trace_hash, cov, rr.rewrite),
     }
 }
 
@@ -304,6 +327,7 @@ pub struct OneOutcome {
     pub detail: String,
     pub at_op: i64,
     pub trace_hash: u64,
+    pub rewrite: Option<Value>,
 }
 
 /// Runs a scenario in a newly started process and classifies the verdict (also from an abort).
@@ -329,17 +353,40 @@ pub fn run_in_new_process(prop_id: &str, scenario: &Value, tag: &str) -> OneOutc
                 detail: v["detail"].as_str().unwrap_or("").to_string(),
                 at_op: v["at_op"].as_i64().unwrap_or(-1),
                 trace_hash: v["trace_hash"].as_u64().unwrap_or(0),
+                rewrite: if v["rewrite"].is_null() { None } else { Some(v["rewrite"].clone()) },
             };
         }
     }
-    // no RESULT line: the process died (abort, double panic, signal)
+    // no RESULT line: the process died (abort, double panic, signal); classify from the first
+    // panic the verbose hook wrote to stderr
     let stderr = String::from_utf8_lossy(&out.stderr);
-    let tail: String = stderr.lines().rev().take(6).collect::<Vec<_>>().into_iter().rev().collect::<Vec<_>>().join(" | ");
+    let first_panic = stderr.lines().find(|l| l.starts_with("PANIC at ")).map(|l| l.to_string());
+    let tail: String = stderr.lines().rev().take(4).collect::<Vec<_>>().into_iter().rev().collect::<Vec<_>>().join(" | ");
+    let sig = match &first_panic {
+        Some(l) => {
+            let rest = &l["PANIC at ".len()..];
+            let (loc, msg) = rest.split_once(": ").unwrap_or((rest, ""));
+            let base = all_props_classify(prop_id, loc, msg);
+            format!("{}+abort", base)
+        }
+        None => format!("{}/abort", prop_id),
+    };
     OneOutcome {
-        signature: Some(format!("{}/abort", prop_id)),
-        detail: format!("process died: status {:?}; stderr tail: {}", out.status, tail),
+        signature: Some(sig),
+        detail: format!("process died: status {:?}; first panic: {:?}; stderr tail: {}", out.status, first_panic, tail),
         at_op: -1,
         trace_hash: 0,
+        rewrite: None,
+    }
+}
+
+/// set by main(): classification of a panic for a property id (needed when a process aborted)
+pub static CLASSIFY: std::sync::OnceLock<fn(&str, &str, &str) -> String> = std::sync::OnceLock::new();
+
+fn all_props_classify(prop_id: &str, loc: &str, msg: &str) -> String {
+    match CLASSIFY.get() {
+        Some(f) => f(prop_id, loc, msg),
+        None => format!("{}/panic@{}", prop_id, loc),
     }
 }
 
@@ -613,7 +660,7 @@ pub fn batch_main(prop: &'static dyn Prop, opts: BatchOpts) -> i32 {
             exit_code = 2;
             continue;
         }
-        let abortish = sig.ends_with("/abort") || conf_sig.ends_with("/abort");
+        let abortish = sig.ends_with("/abort") || conf_sig.ends_with("/abort") || conf_sig.ends_with("+abort");
         if conf_sig != *sig && !abortish {
             println!(
                 "HARNESS-ERROR property={} idx={} determinism: batch said `{}` (trace {:x}), fresh process said `{}` (trace {:x}): {}",
@@ -713,6 +760,13 @@ fn sc_ops_len(sc: &Value) -> usize {
 pub fn minimise(prop: &'static dyn Prop, sc: &Value, sig: &str) -> (Value, OneOutcome, usize) {
     let mut cur = sc.clone();
     let mut cur_out = run_in_new_process(prop.id(), &cur, "min0");
+    if let Some(rw) = cur_out.rewrite.clone() {
+        let o = run_in_new_process(prop.id(), &rw, "min0r");
+        if o.signature.as_deref() == Some(sig) {
+            cur = rw;
+            cur_out = o;
+        }
+    }
     let mut tried = 0usize;
     let t0 = Instant::now();
     'outer: loop {
@@ -788,7 +842,7 @@ pub fn replay_main(props: &[&'static dyn Prop], path: &str) -> i32 {
     let want_sig = v["violation"]["signature"].as_str().unwrap_or("");
     let want_hash = v["trace_hash"].as_u64().unwrap_or(0);
     match &out.signature {
-        Some(s) if s == want_sig && (out.trace_hash == want_hash || s.ends_with("/abort")) => {
+        Some(s) if s == want_sig && (out.trace_hash == want_hash || s.ends_with("abort")) => {
             println!("replayed: signature={} at_op={} detail={}", s, out.at_op, out.detail);
             println!("VIOLATION property={} replay={}", pid, path);
             1
